@@ -19,6 +19,7 @@ type Doc struct {
 	CSS    []string `json:"css"`
 	TestUA bool     `json:"test_ua"`
 	Hints  bool     `json:"hints"`
+	Engine string   `json:"engine,omitempty"` // "" / "pango" / "gotext"
 	Tags   []string `json:"tags"`
 }
 
@@ -139,7 +140,13 @@ func (g *gen) svg() string {
 func (g *gen) block(depth int) string {
 	r := g.r
 	var sb strings.Builder
-	switch k := r.Intn(13); {
+	switch k := r.Intn(14); {
+	case k == 13:
+		g.tag("img")
+		const png = "data:image/png;base64,iVBORw0KGgoAAAANSUhEUgAAAAEAAAABCAYAAAAfFcSJAAAADUlEQVR42mP8z8BQDwAEhQGAhKmMIQAAAABJRU5ErkJggg=="
+		const svgURL = "data:image/svg+xml,%3Csvg xmlns='http://www.w3.org/2000/svg' width='20' height='10'%3E%3Crect width='20' height='10' fill='green' stroke='red'/%3E%3C/svg%3E"
+		fmt.Fprintf(&sb, `<p><img id="%s" src="%s" width="%d" height="%d"> <img src="%s" style="width:%dpx"> <span style="display:inline-block;width:30px;height:12px;background:url(%s) repeat-x, url(%s)"></span></p>`,
+			g.newID(), png, r.Range(5, 40), r.Range(5, 30), svgURL, r.Range(10, 60), png, svgURL)
 	case k == 0:
 		g.tag("heading")
 		fmt.Fprintf(&sb, `<h2 id="%s">%s</h2>`, g.newID(), lorem(r, r.Range(1, 3)))
@@ -282,6 +289,10 @@ func genDoc(r *vlib.Rng, i int) Doc {
 		body.WriteByte('\n')
 	}
 	d := Doc{Name: fmt.Sprintf("doc%d", i), TestUA: r.Chance(1, 3), Hints: r.Chance(1, 4)}
+	if r.Chance(1, 6) {
+		d.Engine = "gotext"
+		g.tag("gotext")
+	}
 	title := lorem(r, 2)
 	d.HTML = fmt.Sprintf(`<!DOCTYPE html><html lang="en"><head><title>%s</title><meta name="author" content="A %d"><meta name="keywords" content="k1, k2"><meta name="description" content="d"><style>%s html { font-size: %dpx }</style></head><body class="g%d">%s</body></html>`,
 		title, i, baseCSS, vlib.Pick(r, []int{10, 10, 9, 11, 12, 8}), r.Intn(3), body.String())
